@@ -383,14 +383,18 @@ def _check_body(ctx, res) -> None:
                        for tt in ((x.targets if isinstance(x, ast.Assign) else [x.target])) for t in ast.walk(tt) if isinstance(t, ast.Name)}
         local_names |= {a.arg for a in f.node.args.args + f.node.args.kwonlyargs}
         for st in walk_local(f.node):
-            if not (isinstance(st, ast.Assign) and isinstance(st.value, ast.Constant) and st.value.value is True
-                    and any(is_self_attr(t) for t in st.targets)):
+            # `self.flag = True` under the tests, or the tests themselves assigned: `self.flag = bool(line) and token != "#" and line.endswith("\\")`
+            conj = []
+            if isinstance(st, ast.Assign) and isinstance(st.value, ast.BoolOp) and isinstance(st.value.op, ast.And) and any(is_self_attr(t) for t in st.targets):
+                conj = [(v, True) for v in st.value.values]
+            if not conj and not (isinstance(st, ast.Assign) and isinstance(st.value, ast.Constant) and st.value.value is True
+                                 and any(is_self_attr(t) for t in st.targets)):
                 continue
             cfg = cfg or CFG(f.node)
             nd = cfg.node_of_stmt(st)
             if nd is None:
                 continue
-            gs = cfg.guards(nd.id)
+            gs = cfg.guards(nd.id) + conj
             if not any(pol and isinstance(t, ast.Call) and call_name(t) == "endswith" and t.args and const_str(t.args[0]) == "\\" for t, pol in gs):
                 continue
             n7 += 1
